@@ -23,7 +23,7 @@ require (
 	github.com/stretchr/testify v1.8.2
 	golang.org/x/crypto v0.36.0
 	golang.org/x/sync v0.12.0
-	golang.org/x/sys v0.31.0 // indirect
+	golang.org/x/sys v0.31.0
 	google.golang.org/api v0.116.0
 	gopkg.in/cheggaaa/pb.v1 v1.0.28
 )
